@@ -34,7 +34,7 @@ OwnerOp == /\ lpc = "wait" /\ nops < MaxOps /\ fpc = -1
                         ELSE IF op = OP_DEL
                         THEN ereg' = [ereg EXCEPT ![U] = [EvNoReg EXCEPT !.owner = Owner]] /\ fired' = fired
                         ELSE /\ ereg' = [ereg EXCEPT ![U] = [present |-> TRUE, ev |-> 0, fl |-> fl, dis |-> FALSE,
-                                                           owner |-> Owner, inflight |-> FALSE, armedBy |-> "post"]]
+                                                           owner |-> Owner, inflight |-> FALSE, armedBy |-> "post", early |-> 0]]
                              /\ fired' = [fired EXCEPT ![U] = 0]
                      /\ busy' = busy
                 /\ armed' = (op \in {OP_ADD, OP_ENABLE})
@@ -54,7 +54,7 @@ KReport == /\ lpc = "wait" /\ armed /\ ready
 LGate == /\ lpc = "gate" /\ EvGate(Owner, U, ereg[U].dis, ereg[U].present)
          /\ lpc' = IF ereg[U].dis THEN "wait" ELSE "deliver"
          /\ UNCHANGED <<armed, ready, fpc, nops, ownerQuiet>>
-LDeliver == /\ lpc = "deliver" /\ EvDeliver(Owner, U, 0) /\ lpc' = "wait"
+LDeliver == /\ lpc = "deliver" /\ (EvDeliver(Owner, U, 0) \/ EvDeliverEarly(Owner, U, 0)) /\ lpc' = "wait"
             /\ UNCHANGED <<armed, ready, fpc, nops, ownerQuiet>>
 Env == /\ ready' = ~ready /\ UNCHANGED <<eVars, armed, lpc, fpc, nops, ownerQuiet>>
 
@@ -63,6 +63,6 @@ Spec == Init /\ [][Next]_vars
 
 (* (C06) once the owning thread has disabled or deleted the event, no callback until it is enabled again *)
 SilentAfterOwnerDisable == [][ownerQuiet /\ ownerQuiet' => fired' = fired]_vars
-Bounded == fired[U] <= 2
+Bounded == fired[U] <= 2 /\ ereg[U].early <= 2
 NoDeliverWhenDisabled == lpc = "deliver" => ereg[U].inflight
 =============================================================================
